@@ -23,6 +23,12 @@ modes
                                                        ["reset"] every Reduino module is dropped from sys.modules and imported
                                                                  again (a stand-in for a fresh interpreter; no text)
 
+  helpers    {"sessions": [[[call, ...] program ...] session ...]}
+                                                     the emitter's literal helpers called directly, one session after a module reset each:
+                                                       ["dur", indent, var, value]  _emit_duration_ms(indent, var, value)
+                                                       ["fmt", value]               _format_float(value)
+                                                     value: ["i", n] int | ["f", "text"] float | ["b", bool] | ["s", text] str
+
 Every mode accepts "adv": key.  Then the name `set` in the namespaces of parser.py and emitter.py is bound to
 a subclass of set whose iteration order is dictated by the key ("asc": sorted, "desc": reverse sorted, anything
 else: sorted by sha256(key, element)) - a stand-in for "another platform's set ordering" that does not depend on
@@ -258,6 +264,40 @@ def promote_case(c):
             "cpp": {n: info.get(n) for n in order}}
 
 
+def helper_value(v):
+    if v[0] == "i":
+        return int(v[1])
+    if v[0] == "f":
+        return float(v[1])
+    if v[0] == "b":
+        return bool(v[1])
+    return str(v[1])
+
+
+def run_helpers(sessions):
+    import importlib
+    out = []
+    for ses in sessions:
+        reset_modules()
+        E = importlib.import_module("Reduino.transpile.emitter")
+        if not (hasattr(E, "_emit_duration_ms") and hasattr(E, "_format_float")):
+            return ["missing"]
+        rs = []
+        for prog in ses:
+            rp = []
+            for c in prog:
+                try:
+                    if c[0] == "dur":
+                        rp.append({"out": list(E._emit_duration_ms(c[1], c[2], helper_value(c[3])))})
+                    else:
+                        rp.append({"out": E._format_float(helper_value(c[1]))})
+                except BaseException as e:  # noqa
+                    rp.append({"exc": type(e).__name__})
+            rs.append(rp)
+        out.append(rs)
+    return out
+
+
 def main():
     req = json.load(sys.stdin)
     signal.signal(signal.SIGALRM, _alarm)
@@ -277,6 +317,8 @@ def main():
         out["results"] = run_ops(req["sources"], req["ops"], req.get("texts", False))
     elif mode == "promote":
         out["results"] = [promote_case(c) for c in req["cases"]]
+    elif mode == "helpers":
+        out["results"] = run_helpers(req["sessions"])
     elif mode == "sorted":
         out["results"] = [sorted(set(l)) for l in req["lists"]]
     else:
